@@ -47,7 +47,7 @@ theorem call_wrapped_chain (o : Obj) (hw : o.dictStep = some .wrapper) (hu : o.u
   exact ⟨rfl, rfl, rfl, rfl⟩
 
 theorem call_wrapped_fn (o : Obj) (hw : o.dictStep = some .wrapper) (f : Nat) (hu : o.userStep = .fn f) (args : List Int) :
-    (o.call args).entries = [] ∧ (o.call args).fns = [⟨f, o.inst.steps + 1, args⟩] ∧ (o.call args).ok = true := by
+    (o.call args).entries = [] ∧ (o.call args).fns = [⟨f, o.inst.steps + 1, args⟩] ∧ (o.call args).ok = !raisesFn f := by
   obtain ⟨i, d, u⟩ := o
   simp only at hw hu
   subst hw; subst hu
